@@ -169,4 +169,164 @@ theorem map_step_total (m : List (Nat × Option Int)) (op : MOp) :
     | some v => cases v <;> simp
   | _ => simp [mapStep]
 
+/-! ### the string find family: `find` against std::string::find (round 8) -/
+
+theorem find_map_range (p : Nat → Bool) (lo : Nat) : ∀ (n : Nat) (r : Nat), ((List.range' lo n)).find? p = some r →
+    lo ≤ r ∧ r < lo + n ∧ p r = true ∧ ∀ j, lo ≤ j → j < r → p j = false := by
+  intro n
+  induction n generalizing lo with
+  | zero => intro r h; simp at h
+  | succ n ih =>
+    intro r h
+    rw [List.range'_succ, List.find?_cons] at h
+    cases hp : p lo with
+    | true =>
+      rw [hp] at h
+      injection h with h; subst h
+      exact ⟨Nat.le_refl _, by omega, hp, fun j h1 h2 => by omega⟩
+    | false =>
+      rw [hp] at h
+      obtain ⟨a, b, c, d⟩ := ih (lo + 1) r h
+      refine ⟨by omega, by omega, c, fun j h1 h2 => ?_⟩
+      by_cases e : j = lo
+      · subst e; exact hp
+      · exact d j (by omega) h2
+
+theorem find_map_range_none (p : Nat → Bool) (lo : Nat) : ∀ (n : Nat), ((List.range' lo n)).find? p = none → ∀ j, lo ≤ j → j < lo + n → p j = false := by
+  intro n
+  induction n generalizing lo with
+  | zero => intro _ j h1 h2; omega
+  | succ n ih =>
+    intro h j h1 h2
+    rw [List.range'_succ, List.find?_cons] at h
+    cases hp : p lo with
+    | true => rw [hp] at h; simp at h
+    | false =>
+      rw [hp] at h
+      by_cases e : j = lo
+      · subst e; exact hp
+      · exact ih (lo + 1) h j (by omega) (by omega)
+
+theorem range_map_eq (lo n : Nat) : (List.range n).map (· + lo) = List.range' lo n := by
+  rw [List.range'_eq_map_range]
+  apply List.map_congr_left
+  intro x _; omega
+
+/-- `firstIdx`: the smallest index of `[lo, hi]` satisfying `p`, or `npos` when there is none -/
+theorem firstIdx_spec (p : Nat → Bool) (lo hi : Nat) :
+    (firstIdx p lo hi = npos ∧ ∀ j, lo ≤ j → j ≤ hi → p j = false) ∨
+    (lo ≤ firstIdx p lo hi ∧ firstIdx p lo hi ≤ hi ∧ p (firstIdx p lo hi) = true ∧ ∀ j, lo ≤ j → j < firstIdx p lo hi → p j = false) := by
+  unfold firstIdx
+  rw [range_map_eq]
+  cases h : (List.range' lo (hi + 1 - lo)).find? p with
+  | none =>
+    left
+    show npos = npos ∧ _
+    refine ⟨rfl, fun j h1 h2 => find_map_range_none p lo _ h j h1 (by omega)⟩
+  | some r =>
+    right
+    obtain ⟨a, b, c, d⟩ := find_map_range p lo _ r h
+    show lo ≤ r ∧ r ≤ hi ∧ p r = true ∧ ∀ j, lo ≤ j → j < r → p j = false
+    exact ⟨a, by omega, c, d⟩
+
+/-- **`find` is std::string::find**: the result is `npos`, and then the needle occurs nowhere at or after `pos`; or it is the FIRST index at or
+    after `pos` where the needle matches, and the match lies inside the string (nothing outside it is compared). -/
+theorem strFind_spec (s f : List Int) (pos : Nat) :
+    (strFind s f pos = npos ∧ ∀ j, pos ≤ j → j ≤ s.length → matchAt s f j = false) ∨
+    (pos ≤ strFind s f pos ∧ strFind s f pos + f.length ≤ s.length ∧ (s.drop (strFind s f pos)).take f.length = f ∧
+      ∀ j, pos ≤ j → j < strFind s f pos → matchAt s f j = false) := by
+  unfold strFind
+  split
+  · left
+    refine ⟨rfl, fun j h1 h2 => ?_⟩
+    omega
+  · rcases firstIdx_spec (matchAt s f) pos s.length with ⟨h1, h2⟩ | ⟨h1, h2, h3, h4⟩
+    · left; exact ⟨h1, h2⟩
+    · right
+      simp only [matchAt, Bool.and_eq_true, beq_iff_eq, decide_eq_true_eq] at h3
+      exact ⟨h1, h3.2, h3.1, h4⟩
+
+theorem find_rev_range (p : Nat → Bool) : ∀ (n r : Nat), (List.range n).reverse.find? p = some r →
+    r < n ∧ p r = true ∧ ∀ j, r < j → j < n → p j = false := by
+  intro n
+  induction n with
+  | zero => intro r h; simp at h
+  | succ n ih =>
+    intro r h
+    rw [List.range_succ, List.reverse_append, List.reverse_singleton, List.singleton_append, List.find?_cons] at h
+    cases hp : p n with
+    | true =>
+      rw [hp] at h; injection h with h; subst h
+      exact ⟨by omega, hp, fun j h1 h2 => by omega⟩
+    | false =>
+      rw [hp] at h
+      obtain ⟨a, b, c⟩ := ih r h
+      refine ⟨by omega, b, fun j h1 h2 => ?_⟩
+      by_cases e : j = n
+      · subst e; exact hp
+      · exact c j h1 (by omega)
+
+theorem find_rev_range_none (p : Nat → Bool) : ∀ (n : Nat), (List.range n).reverse.find? p = none → ∀ j, j < n → p j = false := by
+  intro n
+  induction n with
+  | zero => intro _ j h; omega
+  | succ n ih =>
+    intro h j hj
+    rw [List.range_succ, List.reverse_append, List.reverse_singleton, List.singleton_append, List.find?_cons] at h
+    cases hp : p n with
+    | true => rw [hp] at h; simp at h
+    | false =>
+      rw [hp] at h
+      by_cases e : j = n
+      · subst e; exact hp
+      · exact ih h j (by omega)
+
+/-- `lastIdx`: the largest index of `[0, hi]` satisfying `p`, or `npos` when there is none -/
+theorem lastIdx_spec (p : Nat → Bool) (hi : Nat) :
+    (lastIdx p hi = npos ∧ ∀ j, j ≤ hi → p j = false) ∨
+    (lastIdx p hi ≤ hi ∧ p (lastIdx p hi) = true ∧ ∀ j, lastIdx p hi < j → j ≤ hi → p j = false) := by
+  unfold lastIdx
+  cases h : (List.range (hi + 1)).reverse.find? p with
+  | none =>
+    left
+    show npos = npos ∧ _
+    exact ⟨rfl, fun j hj => find_rev_range_none p _ h j (by omega)⟩
+  | some r =>
+    right
+    obtain ⟨a, b, c⟩ := find_rev_range p _ r h
+    show r ≤ hi ∧ p r = true ∧ ∀ j, r < j → j ≤ hi → p j = false
+    exact ⟨by omega, b, fun j h1 h2 => c j h1 (by omega)⟩
+
+/-- **`rfind` is std::string::rfind**: `npos` exactly when the needle matches at no index up to `pos`; otherwise the LAST index up to `pos`
+    where it matches, the match inside the string. -/
+theorem strRfind_spec (s f : List Int) (pos : Nat) :
+    (strRfind s f pos = npos ∧ ∀ j, j ≤ pos → matchAt s f j = false) ∨
+    (strRfind s f pos ≤ pos ∧ strRfind s f pos + f.length ≤ s.length ∧ (s.drop (strRfind s f pos)).take f.length = f ∧
+      ∀ j, strRfind s f pos < j → j ≤ pos → matchAt s f j = false) := by
+  unfold strRfind
+  split
+  · rename_i hlen
+    left
+    refine ⟨rfl, fun j _ => ?_⟩
+    simp only [matchAt, Bool.and_eq_false_iff, decide_eq_false_iff_not]
+    right; omega
+  · rename_i hlen
+    have beyond : ∀ j, s.length - f.length < j → matchAt s f j = false := by
+      intro j hj
+      simp only [matchAt, Bool.and_eq_false_iff, decide_eq_false_iff_not]
+      right; omega
+    rcases lastIdx_spec (matchAt s f) (min pos (s.length - f.length)) with ⟨h1, h2⟩ | ⟨h1, h2, h3⟩
+    · left
+      refine ⟨h1, fun j hj => ?_⟩
+      by_cases hb : j ≤ s.length - f.length
+      · exact h2 j (by omega)
+      · exact beyond j (by omega)
+    · right
+      have hm := h2
+      simp only [matchAt, Bool.and_eq_true, beq_iff_eq, decide_eq_true_eq] at hm
+      refine ⟨by omega, hm.2, hm.1, fun j hj1 hj2 => ?_⟩
+      by_cases hb : j ≤ s.length - f.length
+      · exact h3 j hj1 (by omega)
+      · exact beyond j (by omega)
+
 end ChaiVerif.C12
